@@ -27,4 +27,22 @@ PROPS = {
             "Time.Sub saturation is modelled (sat64) and compared at the extreme expiries",
         ],
     },
+    "C03": {
+        "obligation_files": ["Properties/C03.v"],
+        "model_files": LAYER_A_MODEL,
+        "rule": "stream clear: random caveat sets (0-6 caveats of every registered kind incl. nested IfPresent to depth 2, unregistered, 3P, bind, attestations) x 1-4 requests of the four request kinds "
+                "(flyio with clock input, discharge, bare, action-only; ~20% arbitrary presence patterns), plus every caveat kind singly against every request kind; observable = nil / sentinel class set; "
+                "implementation-side oracle: Validate clears iff every request validates and every non-attestation caveat clears every request; non-trivial = non-empty set; distinct = distinct Coq case term",
+        "assumptions": ["errors are observed through errors.Is against the library's sentinels only"],
+    },
+    "C10": {
+        "obligation_files": ["Properties/C10.v"],
+        "model_files": LAYER_A_MODEL,
+        "generated_obligations": [],
+        "rule": "stream flyio-rules: all 2^10 presence patterns of the request hierarchy fields x {litefs-cloud, other} feature for Access.Validate (exhaustive); per Fly.io caveat type random values over small universes "
+                "steered to the caveat's resource; validity-window end points +-1 s / +-1 ns around both ends incl. the int64 wrap of time.Unix; every MemberFeatures entry x every action < 64 x 4 role masks; "
+                "non-trivial = flyio request (not the wrong-access shortcut); distinct = distinct Coq case term",
+        "assumptions": ["flyio.Access.Now() is replaced by a harness clock (embedding *flyio.Access and overriding Now) so window boundaries are exact",
+                        "MemberFeatures is regenerated from the source into Generated/Facts.v on every run; member_features_pinned re-checks it against the documented table"],
+    },
 }
